@@ -1,11 +1,13 @@
 """C05 - reliability-layer property judged on recorded executions (see conn_judge / specs/Trace_Conn.tla)."""
-from props import conn_judge as J
+from props import conn_judge as J, conn_model as CM
 
 
 def run(ctx):
     ctx.level = "model_checking"
     ctx.rule = ("events of recorded executions of two real endpoints judged by TLC against Trace_Conn; distinct = recv + build events; "
                 "non-trivial = every recv/build event (each is checked against the full clause set)")
+    CM.c05_models(ctx)
+    CM.finding_replay(ctx, "C05")
     J.run_scenarios(ctx, "C05", scenarios(ctx))
 
 
